@@ -78,6 +78,15 @@ int n(int k) { return k; }
                    'write(gc); write(\'|\'); write(arg); write(\'|\');\n    write(gs.length); write(\' \'); write(gc.length); write(\' \'); write(arg.length); '
                    'writeln(gs); writeln(arg is byte[]);\n}\n' % (elems, lit, lit))
             jobs.append(('long_w%d_n%d' % (w, n), src, [''.join(chr(33 + (i * 7) % 90) for i in range(n))], w, 200, False, 600000))
+            # the same lengths for byte arrays that live in the state section (a different print routine): mutable global,
+            # variable-length local, mutable local literal
+            src2 = ('byte[] gm = [%s];\nempty show(const byte[] a) { write(a); write(\'|\'); }\nempty @is_you() {\n    byte dyn[%d];\n'
+                    '    for (int i = 0; i < dyn.length; i += 1) { dyn[i] = gm[i]; }\n    write(gm); write(\'|\'); write(dyn); write(\'|\'); writeln(dyn); show(dyn); show(gm);\n'
+                    '    gm[0] = 65; dyn[dyn.length - 1] = 66; write(gm); write(dyn); write(gm.length); write(\' \'); write(dyn.length);\n}\n' % (elems, n))
+            jobs.append(('longstate_w%d_n%d' % (w, n), src2, [], w, 300 + n, False, 900000))
+            if n <= 300:
+                src3 = ('empty @is_you() {\n    byte[] lm = [%s];\n    write(lm); write(\'|\'); lm[1] = 67; writeln(lm); write(lm.length);\n}\n' % elems)
+                jobs.append(('longlocal_w%d_n%d' % (w, n), src3, [], w, 400 + 2 * n, False, 900000))
     tally, bad, res = suites.differential(ctx, jobs, None, label='write-family', must_compile=True)
     # python's own decimal notation as a second oracle for the 16-bit sweep
     mism = 0
